@@ -39,8 +39,9 @@ _FAMILIES = {
     "bool": ([("true", True, "x && true"), ("false", False, "!x")], "maybe"),
     "string": ([("abc", "abc", "x + '!' == 'abc!'"), ("", "", "x + '!' == '!'")], None),
     "bytes": ([("abc", "YWJj", "x == b'abc'"), ("", "", "x == b''")], None),
-    "list": ([("[1, 2]", [1, 2], "x + [3] == [1, 2, 3]"), ("[]", [], "size(x) == 0")], "1 +"),
-    "map": ([("{'a': 1}", {"a": 1}, "x.a + 1 == 2"), ("{}", {}, "size(x) == 0")], "nope"),
+    # the elements must arrive as CEL values too: integer division, CEL types, overflow checks
+    "list": ([("[5, 2, True]", [5, 2, True], "x[0] / x[1] == 2 && type(x[0]) == int && type(x[2]) == bool && x + [3] == [5, 2, true, 3]"), ("[]", [], "size(x) == 0")], "1 +"),
+    "map": ([("{'a': 7, 'b': [1.5]}", {"a": 7, "b": [1.5]}, "x.a / 2 == 3 && type(x.b[0]) == double && x == x"), ("{}", {}, "size(x) == 0")], "nope"),
     "null": ([("null", None, "x == null"), ("", None, "x == null")], None),
     "duration": ([("60s", UNSPEC, "x == duration('60s')"), ("1h", UNSPEC, "x == duration('3600s')")], "xyz"),
     "timestamp": ([("2020-01-01T00:00:00Z", UNSPEC, "x == timestamp('2020-01-01T00:00:00Z')"),
